@@ -9,7 +9,7 @@
 //           the searcher runs in any-order mode and hands the block list out in groups of GOMAXPROCS blocks,
 //           one group per Fetch, to GOMAXPROCS chains;
 //   kind 3  first command is a statistics command WITH a by-clause (`* | stats count by id`): group-by buckets filled by
-//           applyFopAllRequests, request by request.
+//           applyFopAllRequests, request by request (a segment key is searched once, where the segment is at that moment).
 // The stage forces the interleavings of one rotation with one query (as the one-block stage in main.go does) for
 // segments of B blocks, under GOMAXPROCS = P, for query shapes of all three kinds, and compares every answer with the
 // property (each event once) and with the model (Handover.searcher_answer: de-duplication by (segment key, block
@@ -241,8 +241,9 @@ func stepPos(sched string, th byte, k int) int {
 	return len(sched)
 }
 
-// The two defects of the group-by route on the unchanged tree (known/C11.json), recognised by WHERE the query's steps
-// fall relative to the rotation's; any other wrong answer of that route keeps the general class.
+// The two defects the group-by route had before its repair (known/C11.json, status fixed), recognised by WHERE the
+// query's steps fall relative to the rotation's, so that a regression is reported under its precise name; any other
+// wrong answer of that route keeps the general class.
 func groupbyKnownClass(sched, verdict string) string {
 	addRot, delUnrot := stepPos(sched, 'w', 2), stepPos(sched, 'w', 3)
 	snapU, snapR, read := stepPos(sched, 'r', 1), stepPos(sched, 'r', 2), stepPos(sched, 'r', 3)
@@ -398,7 +399,7 @@ func blocksStage(cfg vhlib.Config, sum *vhlib.Summary) []string {
 			p2 := vhlib.Pick(rng, []int{1, 2, 3, 4, 16})
 			list = append(list, blocksCase{s, vhlib.Pick(rng, shapesOfKind(rng.Intn(2))), p2, rng.Range(2, 5), 2})
 		}
-		// separate stream: the group-by route (two known defects of the unchanged tree live here), every schedule once
+		// the group-by route (repaired: re-test of IsSegKeyUnrotated + one search per segment key), every schedule once
 		for _, s := range scheds {
 			list = append(list, blocksCase{s, vhlib.Pick(rng, shapesOfKind(3)), vhlib.Pick(rng, []int{1, 2, 4, 16}), rng.Range(1, 4), 2})
 		}
